@@ -18,6 +18,11 @@ for d in sorted(glob.glob("seeded/*")):
             doc = json.load(open(src))
             if len(json.dumps(doc)) > 20000:
                 continue
+            if doc.get("stage") in ("pause", "long") or os.path.exists(
+                    f"replays/{c}/seeded-{name}.json"):
+                # replays are re-run by every quick run: keep them cheap
+                # (a pause case sleeps 11-21 s), and keep what is there
+                continue
             os.makedirs(f"replays/{c}", exist_ok=True)
             dst = f"replays/{c}/seeded-{name}.json"
             doc["note"] = f"shrunk violation found when seeded change {name} was applied; passes on the unchanged tree"
